@@ -40,7 +40,7 @@ PROP = dict(
          "the best placement found by the sequential search, oracle only); for every position the real evaluator accepts: quote from "
          "eval_job_insertion_in_route(Concrete(p)), insertion carried out by the real InsertionHeuristic at that position, fitness "
          "before/after from the real GoalContext::fitness. Non-trivial: tour has >= 2 activities and a quote with a non-zero transport "
-         "component. Distinct = SHA-256 of the canonical case input",
+         "component. Distinct = SHA-256 of the canonical case input One case in four has a goal of 8-9 layers (four constantly-zero objectives in front, stripped before the comparison).",
     modelled="FeatureObjective::estimate and ::fitness of minimize_unassigned, fleet_usage (minimize tours), transport "
              "(DistanceObjective/estimate_leg, CostObjective::estimate_route/estimate_activity, get_total_cost), total_value "
              "(MaximizeTotalValueObjective::estimate/fitness, per job and per (actor, job)); Goal::estimate layering",
